@@ -10,7 +10,9 @@
 // prints the lines; -run re-runs the lines read from stdin.  Parts A (exh) and
 // B (cut) are compared with the model; part C (drain: a fetch whose messages
 // are all read, op "fetchdrain", token drain:<close>:<read>:[messages]) is
-// judged by a predicate on its tags (recends, want).  The OCaml driver
+// judged by a predicate on its tags (recends, want); part D (framing: a foreign
+// correlation id, a short / oversized frame or a cut, then two more operations
+// on the same Conn).  The OCaml driver
 // evaluates the extracted Coq model (Model/ConnOps.v conn_run) on the part
 // before the first '|'.
 package main
@@ -298,8 +300,11 @@ func classify(err error) string {
 }
 
 var warned = map[string]bool{}
+var warnMu sync.Mutex
 
 func warn(format string, a ...interface{}) {
+	warnMu.Lock()
+	defer warnMu.Unlock()
 	s := fmt.Sprintf(format, a...)
 	if !warned[s] {
 		warned[s] = true
@@ -345,7 +350,24 @@ func runOp(conn *kafka.Conn, f *fakeConn, o opSpec) (cls string) {
 }
 
 // runCase gives one "<class>~<c>" token per operation.
+//
+// Watchdog: a case gets caseTimeout; when it fires the operation in progress
+// and the later ones print hang~<last known c> and the goroutine is abandoned
+// (it may keep spinning).  Circuit breaker: once maxHungCases cases have hung no
+// further case is executed, they print notrun~0 per operation.
+const caseTimeout = 2 * time.Second
+const maxHungCases = 3
+
+var hungCases int
+
 func runCase(topic string, ops []opSpec, frames [][]byte, cut int) []string {
+	if hungCases >= maxHungCases {
+		out := make([]string, len(ops))
+		for i := range out {
+			out[i] = "notrun~0"
+		}
+		return out
+	}
 	var mu sync.Mutex
 	var res []string
 	lastClosed := false
@@ -374,11 +396,16 @@ func runCase(topic string, ops []opSpec, frames [][]byte, cut int) []string {
 			mu.Unlock()
 		}
 	}()
-	t := time.NewTimer(10 * time.Second)
+	t := time.NewTimer(caseTimeout)
 	select {
 	case <-done:
 		t.Stop()
 	case <-t.C:
+		hungCases++
+		if hungCases == maxHungCases {
+			out.Flush()
+			fmt.Fprintf(os.Stderr, "c11: circuit breaker: %d cases hung (watchdog %v each); the remaining cases are not run (notrun~0)\n", hungCases, caseTimeout)
+		}
 	}
 	mu.Lock()
 	defer mu.Unlock()
@@ -1277,7 +1304,66 @@ func genAll(seed int64, tier string) {
 		}
 	}
 	nC := genDrain(seed + 7777)
-	fmt.Fprintf(os.Stderr, "c11: part A %d cases, part B %d cases, part C %d cases\n", counts["A"], counts["B"], nC)
+	nD := genFraming(seed + 9999)
+	fmt.Fprintf(os.Stderr, "c11: part A %d cases, part B %d cases, part C %d cases, part D %d cases\n", counts["A"], counts["B"], nC, nD)
+}
+
+// ---------------------------------------------------------------------------
+// PART D: framing errors on the first response, then TWO further operations on
+// the same Conn (what the Conn does after io.ErrNoProgress / a short or
+// oversized frame / a cut).  Generated after part C from a PRNG of its own.
+// ---------------------------------------------------------------------------
+
+func genFraming(seed int64) int {
+	r := rand.New(rand.NewSource(seed))
+	count := 0
+	for _, a := range apiList {
+		n1 := apiVer{"heartbeat", 0}
+		if a.name == "heartbeat" {
+			n1 = apiVer{"leavegroup", 0}
+		}
+		n2 := apiVer{"listoffsets", 1}
+		if a.name == "listoffsets" {
+			n2 = apiVer{"offsetfetch", 1}
+		}
+		b1 := genBody(r, a.name, a.ver, site{}, fetchOpt{msV2, false})
+		b2 := genBody(r, n1.name, n1.ver, site{}, fetchOpt{})
+		b3 := genBody(r, n2.name, n2.ver, site{}, fetchOpt{})
+		ops := []opSpec{{a.name, a.ver, b1.off}, {n1.name, n1.ver, 0}, {n2.name, n2.ver, 0}}
+		good := frame(2, b1.body)
+		f2, f3 := frame(3, b2.body), frame(4, b3.body)
+		resize := func(d int) []byte {
+			fr := append([]byte(nil), good...)
+			binary.BigEndian.PutUint32(fr, uint32(len(b1.body)+4+d))
+			return fr
+		}
+		base := fmt.Sprintf("op=%sv%d,next=%sv%d,next2=%sv%d", a.name, a.ver, n1.name, n1.ver, n2.name, n2.ver)
+		add := func(kind string, fr1 []byte, cut int, extra string) {
+			emit(&tcase{
+				topic:  ownTopic,
+				ops:    ops,
+				frames: [][]byte{fr1, f2, f3},
+				cut:    cut,
+				tags:   "framing,kind=" + kind + "," + base + extra,
+			})
+			count++
+		}
+		add("foreignid", frame(7, b1.body), -1, "")
+		add("shortframe", resize(-1), -1, ",d=1")
+		add("shortframe", resize(-2), -1, ",d=2")
+		add("oversized", resize(3), len(good), "")
+		for _, k := range []int{3, 8 + len(b1.body)/2, len(good) - 1} {
+			pos := "body"
+			switch {
+			case k < 8:
+				pos = "hdr"
+			case k == len(good)-1:
+				pos = "last"
+			}
+			add("cut", good, k, ",cutpos="+pos)
+		}
+	}
+	return count
 }
 
 // ---------------------------------------------------------------------------
